@@ -20,7 +20,7 @@ from .arbiter import ALLF, sigs_of
 
 PROP = "C07"
 LEVEL = "other"
-CLAUSES = ["cyc_select", "request_copy", "sel_fanout", "adr_offset", "response_relay"]
+CLAUSES = ["cyc_select", "request_copy", "sel_fanout", "adr_offset", "response_relay", "bus_as_configured"]
 PAIRS = [(8, 8), (16, 8), (16, 16), (32, 8), (32, 16), (32, 32), (64, 8), (64, 16), (64, 32), (64, 64)]
 KNOWN_KEY = "dense-window-onto-finer-granularity-subordinate"
 
@@ -99,6 +99,8 @@ def configs(tier, seed):
     for k, c in enumerate(cfgs):
         if k % 3 == 1:
             c["enum_features"] = True
+        if k % 7 == 5 and c["feat"]:
+            c["iter_features"] = True
         if k % 4 == 2:
             c["refused_before"] = sorted({0, len(c["subs"])} if k % 8 == 2 else {len(c["subs"]) // 2})
         if k % 5 == 3 and len(c["subs"]) >= 2:
@@ -127,6 +129,8 @@ def build(cfg, upto=None):
 
     def spell(feats):
         # the documented alternative spelling with Feature members instead of strings: the same component must result
+        if cfg.get("iter_features"):
+            return iter([wishbone.Feature(f) if i % 2 else f for i, f in enumerate(feats)])      # any iterable, also a one-shot iterator
         return {wishbone.Feature(f) for f in feats} if cfg.get("enum_features") else feats
 
     def add(dec, i):
@@ -240,6 +244,11 @@ def check_config(ctx, cfg):
     nl = ctx.netlist(dec, probes=probes, tie=tie)
     ctx.nontrivial = len(subs) >= 2
     bus = dec.bus
+    # the decoder's bus is the one that was CONFIGURED, however the feature set was spelled (the clauses below look at the signals the bus
+    # has: a bus that silently lost its optional signals would satisfy them vacuously)
+    from amaranth_soc import wishbone as _wb
+    want_sig = _wb.Signature(addr_width=cfg["aw"], data_width=cfg["dw"], granularity=cfg["g"], features=set(cfg["feat"]))
+    ctx.prove("bus_as_configured", z3.BoolVal(bus.signature == want_sig and all(hasattr(bus, f) for f in cfg["feat"])))
     S = lambda x: x.as_value() if hasattr(x, "as_value") else x
     f0 = nl.frame("0")
     I = lambda s: f0.inp(S(s))
